@@ -176,7 +176,7 @@ func (vc *VC) comp(key, sort string) string {
 // (The allocation part of well-formedness is added where values are loaded.)
 func memInv(key, sort, term, alloc string) string {
 	wf := func(x string) string {
-		return "(and (<= 0 (soff " + x + ")) (<= 0 (slen_ " + x + ")) (<= (slen_ " + x + ") (scap " + x + ")) (=> (= (sarr " + x + ") 0) (= (scap " + x + ") 0)) (or (= (sarr " + x + ") 0) (select " + alloc + " (rootOf (sarr " + x + ")))))"
+		return "(and (<= 0 (soff " + x + ")) (<= 0 (slen_ " + x + ")) (<= (slen_ " + x + ") (scap " + x + ")) (=> (= (sarr " + x + ") 0) (and (= (scap " + x + ") 0) (= (soff " + x + ") 0))) (or (= (sarr " + x + ") 0) (select " + alloc + " (rootOf (sarr " + x + ")))))"
 	}
 	switch {
 	case strings.HasPrefix(key, "E:") && sort == "(Array Int (Array Int Slice))":
@@ -245,6 +245,7 @@ const (
 	LField LocKind = iota // scalar field of struct at ref Base
 	LElem                 // element Idx of backing array Base
 	LCell                 // cell at ref Base
+	LVar                  // local variable cell that never escapes as a pointer: its own state component Key
 )
 
 type Loc struct {
@@ -366,11 +367,13 @@ type Exec struct {
 	allWrites map[string]bool
 	ghostArgs map[string]TV // ghost params of this activation
 	callOrd  map[string]int
+	callOrdOf map[*ssa.CallCommon]int // source-order ordinal of each call instruction among calls of the same callee name
 	loopPhiOverlay map[ssa.Value]Val
 	entryReach string
 	rangeIters map[*ssa.Range]*rangeIter
 	panicsWhen string // entry-state term: documented panic condition
 	ghostLoop  *Loop
+	loopEntry  map[*Loop]*State // state on entry to each loop (before the havoc), for lold()
 }
 
 func (vc *VC) newExec(fn *ssa.Function, ts TSubst, parent *Exec) *Exec {
@@ -387,7 +390,52 @@ func (vc *VC) newExec(fn *ssa.Function, ts TSubst, parent *Exec) *Exec {
 	for _, l := range ex.loops {
 		ex.loopAt[l.Header] = l
 	}
+	ex.callOrdOf = map[*ssa.CallCommon]int{}
+	type cs struct {
+		c    *ssa.CallCommon
+		name string
+		pos  token.Pos
+		seq  int
+	}
+	var all []cs
+	for _, b := range fn.Blocks {
+		for _, ins := range b.Instrs {
+			if ci, ok := ins.(ssa.CallInstruction); ok {
+				all = append(all, cs{ci.Common(), calleeName(ci.Common()), ins.Pos(), len(all)})
+			}
+		}
+	}
+	sort.SliceStable(all, func(i, j int) bool {
+		if all[i].pos != all[j].pos {
+			return all[i].pos < all[j].pos
+		}
+		return all[i].seq < all[j].seq
+	})
+	cnt := map[string]int{}
+	for _, c := range all {
+		cnt[c.name]++
+		ex.callOrdOf[c.c] = cnt[c.name]
+	}
 	return ex
+}
+
+// calleeName: the name under which a call site is addressed in contracts (call f#k, ghost-at f#k).
+func calleeName(c *ssa.CallCommon) string {
+	if c.IsInvoke() {
+		return c.Method.Name()
+	}
+	switch v := c.Value.(type) {
+	case *ssa.Builtin:
+		return v.Name()
+	case *ssa.Function:
+		if v.Origin() != nil {
+			return v.Origin().Name()
+		}
+		return v.Name()
+	case *ssa.MakeClosure:
+		return v.Fn.Name()
+	}
+	return "$func"
 }
 
 func (ex *Exec) typ(t types.Type) types.Type { return ex.ts.apply(t) }
@@ -674,7 +722,7 @@ func (ex *Exec) typeInv(term string, t types.Type, st *State) string {
 		return sAnd("(<= 0 (soff "+term+"))", "(<= 0 (slen_ "+term+"))", "(<= (slen_ "+term+") (scap "+term+"))",
 			"(<= (+ (soff "+term+") (scap "+term+")) 72057594037927936)",
 			sOr("(= (sarr "+term+") 0)", sSel(ex.get(st, "alloc", "(Array Int Bool)"), "(rootOf (sarr "+term+"))")),
-			sImp("(= (sarr "+term+") 0)", "(= (scap "+term+") 0)"))
+			sImp("(= (sarr "+term+") 0)", "(and (= (scap "+term+") 0) (= (soff "+term+") 0))"))
 	case *types.Basic:
 		if u.Info()&types.IsInteger != 0 {
 			lo, hi := intRange(u)
@@ -1006,6 +1054,8 @@ func (ex *Exec) storeAt(st *State, ref string, t types.Type, v string) {
 
 func (ex *Exec) loadLoc(st *State, l *Loc) string {
 	switch l.Kind {
+	case LVar:
+		return ex.get(st, l.Key, l.Sort)
 	case LField:
 		ex.permCheck(l.Key, l.Base, false)
 		return sSel(ex.get(st, l.Key, "(Array Int "+l.Sort+")"), l.Base)
@@ -1018,6 +1068,8 @@ func (ex *Exec) loadLoc(st *State, l *Loc) string {
 
 func (ex *Exec) loadLocNoPerm(st *State, l *Loc) string {
 	switch l.Kind {
+	case LVar:
+		return ex.get(st, l.Key, l.Sort)
 	case LField:
 		return sSel(ex.get(st, l.Key, "(Array Int "+l.Sort+")"), l.Base)
 	case LElem:
@@ -1028,6 +1080,8 @@ func (ex *Exec) loadLocNoPerm(st *State, l *Loc) string {
 
 func (ex *Exec) storeLoc(st *State, l *Loc, v string) {
 	switch l.Kind {
+	case LVar:
+		ex.set(st, l.Key, l.Sort, v)
 	case LField:
 		as := "(Array Int " + l.Sort + ")"
 		ex.permCheck(l.Key, l.Base, true)
@@ -1043,8 +1097,53 @@ func (ex *Exec) storeLoc(st *State, l *Loc, v string) {
 	}
 }
 
+// allocIsLocalVar: a scalar local whose address is only used for loads, stores and closure capture (and the
+// capturing closures use it the same way). Such a cell cannot alias anything, so it is modelled as a state
+// component of its own instead of an entry of the shared cell array.
+func allocIsLocalVar(a ssa.Value, depth int) bool {
+	if depth > 4 {
+		return false
+	}
+	refs := a.Referrers()
+	if refs == nil {
+		return false
+	}
+	for _, r := range *refs {
+		switch x := r.(type) {
+		case *ssa.DebugRef:
+		case *ssa.UnOp:
+			if x.Op != token.MUL {
+				return false
+			}
+		case *ssa.Store:
+			if x.Addr != a || x.Val == a {
+				return false
+			}
+		case *ssa.MakeClosure:
+			fn := x.Fn.(*ssa.Function)
+			for k, b := range x.Bindings {
+				if b == a {
+					if k >= len(fn.FreeVars) || !allocIsLocalVar(fn.FreeVars[k], depth+1) {
+						return false
+					}
+				}
+			}
+		default:
+			return false
+		}
+	}
+	return true
+}
+
 func (ex *Exec) doAlloc(i *ssa.Alloc) {
 	pt := ex.typ(i.Type()).(*types.Pointer).Elem()
+	if !isAggregate(pt) && allocIsLocalVar(i, 0) {
+		srt := ex.vc.sortOf(pt)
+		key := fmt.Sprintf("L:%s%s_%s", ex.pfx, i.Name(), sanitize(i.Comment))
+		ex.vals[i] = Val{Loc: &Loc{Kind: LVar, Key: key, Sort: srt, Ty: pt}}
+		ex.set(ex.curState, key, srt, ex.vc.zeroOf(pt))
+		return
+	}
 	r := ex.newRef(i.Name() + "_" + sanitize(i.Comment))
 	ex.vals[i] = Val{T: r}
 	ex.storeZero(ex.curState, r, pt)
